@@ -84,6 +84,14 @@ Theorem C18_cleanup_live_bound : forall lim mg es ls st st' r,
 Proof. exact cleanup_live_bound. Qed.
 Print Assumptions C18_cleanup_live_bound.
 
+(* Cache.Cleanup's map rebuild (recreatePayload, taken when the map once held >= 200 entries and now holds
+   at most a tenth of that) is the identity on the key |-> entry mapping: with it, Cache.Cleanup is Cache.Cleanup
+   with only the maxPayloadSize bookkeeping, so every theorem above holds for the code with the rebuild. *)
+Theorem C18_rebuild_identity : forall c st,
+  (forall es, map (rebuild_entry true c) es = es) /\ clean_cache_v repaired c st = clean_cache c st.
+Proof. exact (fun c st => conj (rebuild_id c) (clean_cache_v_repaired c st)). Qed.
+Print Assumptions C18_rebuild_identity.
+
 (* ------------------------------------------------------------------ examples *)
 Open Scope Z_scope.
 
@@ -94,7 +102,7 @@ Proof. split; vm_compute; reflexivity. Qed.
 
 Definition w_release := [LNewCache; LNewCache; LNewCache; LNewCache; LRelease 1; LRelease 3; LRelCollect; LRelRemove].
 Example C18_release_buckets_v0_refuted :
-  exists st, run_v (mkV true true false true) (init 0 0 68) w_release = Some st /\
+  exists st, run_v (mkV true true false true true) (init 0 0 68) w_release = Some st /\
              is_released (caches st) 2 = false /\ ~ In 2%nat (buckets st).
 Proof. eexists. split; [vm_compute; reflexivity|]. split; [reflexivity|]. simpl. intuition discriminate. Qed.
 
@@ -104,7 +112,7 @@ Definition w_recover := [LNewCache; LSpawn 0 7 (OVal 1 100); LStep 0; LStep 0; L
   LCleanBegin; LCleanCache 0; LSpawn 0 1 (OVal 2 50); LStep 2; LStep 2; LStep 2; LStep 1].
 Example C18_recover_v0_refuted :
   race_free (init 1 0 68) w_recover = true /\
-  (exists st, run_v (mkV false true true true) (init 1 0 68) w_recover = Some st /\ acct st = 118 /\ live st = 0) /\
+  (exists st, run_v (mkV false true true true true) (init 1 0 68) w_recover = Some st /\ acct st = 118 /\ live st = 0) /\
   (exists st, run (init 1 0 68) w_recover = Some st /\ acct st = 118 /\ live st = 118).
 Proof. split; [vm_compute; reflexivity|]. split; eexists; (split; [vm_compute; reflexivity|split; vm_compute; reflexivity]). Qed.
 
@@ -114,7 +122,7 @@ Definition w_save := [LNewCache; LSpawn 0 7 (OVal 1 100); LStep 0; LStep 0; LSte
   LRotate; LSpawn 0 7 (OVal 3 100); LStep 2; LGcGens; LStep 1; LStep 1].
 Example C18_save_v0_refuted :
   race_free (init 2000 100 68) w_save = true /\
-  (exists st, run_v (mkV true false true true) (init 2000 100 68) w_save = Some st /\ acct st = 168 /\ live st = 286) /\
+  (exists st, run_v (mkV true false true true true) (init 2000 100 68) w_save = Some st /\ acct st = 168 /\ live st = 286) /\
   (exists st, run (init 2000 100 68) w_save = Some st /\ acct st = 286 /\ live st = 286).
 Proof. split; [vm_compute; reflexivity|]. split; eexists; (split; [vm_compute; reflexivity|split; vm_compute; reflexivity]). Qed.
 
@@ -134,7 +142,7 @@ Definition w_gc_pending := [LNewCache; LSpawn 0 2 (OVal 1 200); LStep 0; LStep 0
   LStep 1; LStep 1; LRotate; LSpawn 0 2 (OVal 3 1); LStep 2; LGcGens; LStep 1].
 Example C18_save_add_after_unlock_v0_refuted :
   race_free (init 2000 100 68) w_gc_pending = true /\
-  (exists st, run_v (mkV true true true false) (init 2000 100 68) w_gc_pending = Some st /\ acct st = 268 /\ live st = 386) /\
+  (exists st, run_v (mkV true true true false true) (init 2000 100 68) w_gc_pending = Some st /\ acct st = 268 /\ live st = 386) /\
   (exists st, run (init 2000 100 68) w_gc_pending = Some st /\ acct st = 386 /\ live st = 386).
 Proof. split; [vm_compute; reflexivity|]. split; eexists; (split; [vm_compute; reflexivity|split; vm_compute; reflexivity]). Qed.
 
@@ -162,4 +170,23 @@ Proof.
   split; [repeat constructor; simpl; auto; lia|].
   eexists. split; [vm_compute; reflexivity|].
   intros e en He A Nz. do 5 (destruct e as [|e]; simpl in He; [inversion He; subst; try discriminate; try reflexivity; try (exfalso; apply Nz; reflexivity)|]); destruct e; discriminate.
+Qed.
+
+(* a seeded regression (never in /repo's history): recreatePayload skipping entries with wg != nil drops an entry
+   that is STILL LOADING: 200 entries, rotation, a loader parked on key 1 in the fresh generation, a cleaning pass
+   (everything else goes, the map is rebuilt), a second Get of key 1: it runs a second loader instead of waiting
+   (single flight broken) and the first loader's save accounts 118 bytes that no live entry holds *)
+Definition fill_labels (n : nat) : list label :=
+  flat_map (fun i => [LSpawn 0 (10 + i) (OVal (Z.of_nat i) 2); LStep i; LStep i; LStep i]) (seq 0 n).
+Definition w_rebuild := LNewCache :: fill_labels 200 ++
+  [LRotate; LSpawn 0 1 (OVal 999 50); LStep 200; LCleanBegin; LCleanCache 0; LSpawn 0 1 (OVal 998 50); LStep 201; LStep 200; LStep 200].
+Example C18_rebuild_skips_loading_v0_refuted :
+  race_free (init 13500 675 68) w_rebuild = true /\
+  (exists st, run_v (mkV true true true true false) (init 13500 675 68) w_rebuild = Some st /\ nrec st = 1 /\
+              thread_pc st 201 = Some (PLoad 201) /\ acct st = 118 /\ live st = 0) /\
+  (exists st, run (init 13500 675 68) w_rebuild = Some st /\ nrec st = 1 /\
+              thread_pc st 201 = Some (PWait 200) /\ acct st = 118 /\ live st = 118).
+Proof.
+  split; [vm_compute; reflexivity|].
+  split; eexists; (split; [vm_compute; reflexivity|repeat split; vm_compute; reflexivity]).
 Qed.
